@@ -257,6 +257,10 @@ class WorldC10(World):
                                         q, T, on - offv, want, off, desc))
             if T2:
                 R = self.c.R('kJ/mol/K')
+                g1 = float(t.get_G(T=T, units='kJ/mol')) - float(t.get_G(T=T, units='kJ/mol', use_references=False))
+                if abs(g1 - (-s * T_ref * R)) > 1e-8 * max(1.0, abs(s * T_ref * R)):
+                    raise Violation('adjustment-T-independent', 'G(on)-G(off) = %r kJ/mol at %r K; expected %r' % (
+                        g1, T, -s * T_ref * R))
                 h1 = float(t.get_H(T=T, units='kJ/mol')) - float(t.get_H(T=T, units='kJ/mol', use_references=False))
                 h2 = float(t.get_H(T=T2, units='kJ/mol')) - float(t.get_H(T=T2, units='kJ/mol', use_references=False))
                 want = -s * T_ref * R
